@@ -101,7 +101,7 @@ func lemmaObligation(w *World, name string) ([]*Obligation, error) {
 // runBoundedTest runs a bounded stand-in (an in-package Go test kept under /verif/bounded) against the tree under
 // check through an overlay. It returns "pass", "fail" (the test ran and failed: a concrete failing input is in the
 // output) or "error" (it could not be built or run), and the output.
-func runBoundedTest(file, pkgDir, run string, timeoutS int) (string, string) {
+func runBoundedTest(file, pkgDir, run string, timeoutS int, tier string) (string, string) {
 	src := file
 	if !filepath.IsAbs(src) {
 		src = filepath.Join(verifDir, src)
@@ -114,7 +114,7 @@ func runBoundedTest(file, pkgDir, run string, timeoutS int) (string, string) {
 	defer os.Remove(ovFile)
 	cmd := exec.Command("go", "test", "-overlay", ovFile, "-vet=off", "-count=1", "-timeout", fmt.Sprintf("%ds", timeoutS), "-run", run, "./"+pkgDir)
 	cmd.Dir = repoDir
-	cmd.Env = append(os.Environ(), "GOFLAGS=-mod=mod", "GOPROXY=off", "GOSUMDB=off", "GOTOOLCHAIN=local")
+	cmd.Env = append(os.Environ(), "GOFLAGS=-mod=mod", "GOPROXY=off", "GOSUMDB=off", "GOTOOLCHAIN=local", "VERIF_TIER="+tier)
 	out, err := cmd.CombinedOutput()
 	if err == nil {
 		return "pass", string(out)
